@@ -3,6 +3,7 @@ CONSTANTS
  Classes <- SmallClasses
  HashedClasses <- SmallClasses
  VizHashed = TRUE
+ FlagOverwritesConfig = FALSE
  EventsHashed = TRUE
  NOrders = 2
  KeyDependsOnOrder = FALSE
